@@ -70,7 +70,10 @@ def b4_route_determinism(chk, mod):
                             (isinstance(t.ops[0], (ast.Lt, ast.LtE, ast.Gt, ast.GtE)) and _is_relax(n)):
                         found = n
                         break
-        ok = False
+        ok = None if found is None else False
+        if found is None:
+            detail = ("the route search was not recognised (no `if d_new < d_old ... elif d_new == d_old` relaxation chain): whether "
+                      f"equally short routes are chosen independently of the hash order of `{sname}` is not decided")
         if found is not None:
             t = expand(found.test, env)
             op = t.ops[0]
@@ -119,7 +122,7 @@ def b4_route_determinism(chk, mod):
                     detail = "equal-distance branch contains no route comparison"
         chk.ob("B4-unordered-choice", node, f"{kind}({sname})", ok, detail, file=mod.rel,
                func="LayoutManager._makeConnectionMap")
-        ok_all = ok_all and ok
+        ok_all = ok_all and (ok is not False)
     if not sites:
         chk.ob("B4-unordered-choice", fn, "no unordered choice", True,
                "route search no longer iterates over an unordered collection", file=mod.rel,
@@ -256,6 +259,6 @@ def run(chk):
     chk.extra["collective_functions"] = nfun
     chk.extra["required_uniform_params"] = {f"{fi.rel}:{fi.qual}": fi.required_uniform for fi in s.funcs.values()
                                             if fi.required_uniform}
-    chk.floor("B0-collective-site", 30)
-    chk.floor("B1-balanced-region", 5)
+    chk.floor("B0-collective-site", 12)
+    chk.floor("B1-balanced-region", 3)
     chk.floor("B4-unordered-choice", 1)
